@@ -104,7 +104,7 @@ std::vector<T> decVec(const json &j) {
 }
 
 // ---------------------------------------------------------------- orders
-constexpr size_t MAXORD = 9;
+constexpr size_t MAXORD = 25;
 template <typename F>
 void withOrder(size_t o, F &&f) {
   switch (o) {
@@ -114,6 +114,8 @@ void withOrder(size_t o, F &&f) {
     break;
     VH_CASE(0) VH_CASE(1) VH_CASE(2) VH_CASE(3) VH_CASE(4)
     VH_CASE(5) VH_CASE(6) VH_CASE(7) VH_CASE(8) VH_CASE(9)
+    VH_CASE(10) VH_CASE(11) VH_CASE(12) VH_CASE(13) VH_CASE(14) VH_CASE(15) VH_CASE(16) VH_CASE(17)
+    VH_CASE(18) VH_CASE(19) VH_CASE(20) VH_CASE(21) VH_CASE(22) VH_CASE(23) VH_CASE(24) VH_CASE(25)
 #undef VH_CASE
     default:
       throw std::runtime_error("harness: unsupported order");
